@@ -71,7 +71,9 @@ func caseRegion(info *types.Info, sw *ast.SwitchStmt, constName string) ([]ast.S
 type roles struct {
 	setInstance    *FuncInfo // method of *scope with a Lifetime switch that stores into the scope cache
 	resolve        *FuncInfo // method of *scope with a Lifetime switch that calls createInstance
-	createInstance *FuncInfo // method of *scope that calls ConstructorInvoker.Invoke*
+	createInstance *FuncInfo // method of *scope that calls ConstructorInvoker.Invoke* (the core)
+	creators       map[*types.Func]bool // the core and the *scope wrappers through which it is reached
+	createEntry    *FuncInfo            // the member of the chain that resolve calls
 	setSingleton   *FuncInfo // method of *provider that stores into the sync.Map
 	getInstance    *FuncInfo
 	getSingleton   *FuncInfo
@@ -85,6 +87,9 @@ type roles struct {
 	singletons     *types.Var
 	initList       *types.Var
 }
+
+// isCreate: cal constructs an instance (the core createInstance or a wrapper on the way to it).
+func (ro *roles) isCreate(cal *types.Func) bool { return cal != nil && ro.creators[cal] }
 
 var rolesCache *roles
 
@@ -183,7 +188,31 @@ func resolveRoles(w *World) *roles {
 			ro.runInits = fi
 		}
 	}
-	// resolve: the scope method with a Lifetime switch that calls createInstance
+	// the creation chain: the core plus *scope methods of the same shape that call a member
+	ro.creators = map[*types.Func]bool{}
+	if ro.createInstance != nil {
+		ro.creators[ro.createInstance.Obj] = true
+		coreSig := ro.createInstance.Obj.Type().(*types.Signature)
+		for changed := true; changed; {
+			changed = false
+			for _, fi := range w.FuncsOf(w.Godi) {
+				if ro.creators[fi.Obj] || !recvIs(fi, "scope") || fi == ro.setInstance || len(lifetimeSwitches(w, fi)) > 0 {
+					continue
+				}
+				sig := fi.Obj.Type().(*types.Signature)
+				if !types.Identical(sig.Params(), coreSig.Params()) || !types.Identical(sig.Results(), coreSig.Results()) {
+					continue
+				}
+				for _, c := range callsIn(fi.Decl.Body, true) {
+					if ro.creators[callee(fi.Pkg.TypesInfo, c)] {
+						ro.creators[fi.Obj] = true
+						changed = true
+					}
+				}
+			}
+		}
+	}
+	// resolve: the scope method with a Lifetime switch that calls into the creation chain
 	for _, fi := range w.FuncsOf(w.Godi) {
 		if rn := recvNamed(fi.Obj); rn == nil || rn.Obj().Name() != "scope" || fi == ro.setInstance {
 			continue
@@ -192,8 +221,9 @@ func resolveRoles(w *World) *roles {
 			continue
 		}
 		for _, c := range callsIn(fi.Decl.Body, true) {
-			if callee(fi.Pkg.TypesInfo, c) == ro.createInstance.Obj {
+			if cal := callee(fi.Pkg.TypesInfo, c); ro.creators[cal] {
 				ro.resolve = fi
+				ro.createEntry = w.Decls[cal]
 			}
 		}
 	}
@@ -243,7 +273,7 @@ func trackingEvents(w *World, ro *roles) *Events {
 			if cal == ro.setSingleton.Obj {
 				out = append(out, "call:setSingleton")
 			}
-			if cal == ro.createInstance.Obj {
+			if ro.isCreate(cal) {
 				out = append(out, "call:createInstance")
 			}
 			if cal == ro.setInstance.Obj {
